@@ -64,7 +64,7 @@ func flipSpread(q *gqlgen.Query, which int) (*gqlgen.Query, string, bool) {
 						}
 						v := false
 						if d.Var != "" {
-							v, _ = q.Vars[d.Var].(bool)
+							v, _ = q.Eff()[d.Var].(bool)
 							d.Var = ""
 						} else if d.Lit != nil {
 							v = *d.Lit
@@ -85,7 +85,7 @@ func flipSpread(q *gqlgen.Query, which int) (*gqlgen.Query, string, bool) {
 func main() {
 	o := vh.ParseFlags()
 	run := vh.NewRun("C19", o)
-	run.Rule = "generated schema (reflect.StructOf/MakeFunc through schemabuilder) + data tree + query with @skip/@include on fields, inline fragments, spreads (same fragment spread several times), union member fragments, literal and variable conditions; non-trivial = the query carries at least two directives, at least one node is deleted by pruning and the pruned result is a non-empty object; distinct by query text + data"
+	run.Rule = "generated schema (reflect.StructOf/MakeFunc through schemabuilder) + data tree + query with @skip/@include on fields, inline fragments, spreads (same fragment spread several times), union member fragments, literal and variable conditions (variables sent, or left to a default declared in the operation); non-trivial = the query carries at least two directives, at least one node is deleted by pruning and the pruned result is a non-empty object; distinct by query text + data"
 	r := vh.NewRng(o.Seed)
 
 	var cases []*gqlgen.Case
@@ -225,7 +225,7 @@ func main() {
 			queries = append(queries, gqlgen.CoqQuery(pr))
 			runs = append(runs, gqlgen.CoqRun(0, 1, nil, obsP))
 		}
-		terms = append(terms, fmt.Sprintf("(%d, %s)", idx, gqlgen.CoqCase([]string{gqlgen.CoqSchema(b.Schema)}, c.Data, q.Vars, queries, runs)))
+		terms = append(terms, fmt.Sprintf("(%d, %s)", idx, gqlgen.CoqCase([]string{gqlgen.CoqSchema(b.Schema)}, c.Data, q.Eff(), queries, runs)))
 		if len(terms) >= shard {
 			flush(idx + 1)
 		}
